@@ -80,8 +80,8 @@ func writeManifest(vd string) {
 		"setup_cmd": "cd /verif && export GOFLAGS=-mod=mod GOPROXY=off GOSUMDB=off GOTOOLCHAIN=local GOWORK=off && mkdir -p bin evidence && cd checker && go build -o ../bin/wzcheck .",
 		"hooks": map[string]interface{}{
 			"guard":            "verif",
-			"enable":           "none needed: the checks read the unmodified source; the thorough tier additionally loads the tree with -tags verif and GOARCH=386 to make sure no build-constrained file hides code",
-			"baseline_off_cmd": "cd /repo && go build ./... && go test -vet=off -count=1 ./...",
+			"enable":           "none needed: the checks read the unmodified source (no hook commits exist); the thorough tier additionally loads the tree with -tags verif and GOARCH=386 to make sure no build-constrained file hides code",
+			"baseline_off_cmd": "/verif/tools/baseline.sh",
 			"source_commits":   []string{},
 			"add_only":         true,
 		},
